@@ -193,7 +193,7 @@ const preludeCore = `
 (define-fun PObj ((id Int)) Ptr (mk_ptr id PathNil))
 (define-fun PField ((b Ptr) (f Int)) Ptr (mk_ptr (p_root b) (PathField (p_path b) f)))
 (define-fun PElem ((a Ptr) (i Int)) Ptr (mk_ptr (p_root a) (PathElem (p_path a) i)))
-(define-fun is_PNull ((p Ptr)) Bool (= p (mk_ptr (- 1) PathNil)))
+(define-fun is_PNull ((p Ptr)) Bool (= (p_root p) (- 1)))
 (define-fun is_PField ((p Ptr)) Bool ((_ is PathField) (p_path p)))
 (define-fun is_PElem ((p Ptr)) Bool ((_ is PathElem) (p_path p)))
 (define-fun is_PObj ((p Ptr)) Bool ((_ is PathNil) (p_path p)))
